@@ -20,6 +20,8 @@ Directive grammar (each on its own line, leading whitespace allowed):
   //@ forward "CALL" => "EXPR" via FILE :: SELECTOR == "BODY"   rule R20: CALL is a call of the forwarding method SELECTOR whose body is
                             (checked on every run) exactly BODY; it is replaced by EXPR
   //@ for-next N into=F next=G [iter=NAME]   rule R18: the N-th loop, a `for`, is written as `loop { match G(&mut it) {..} }`
+  //@ region-closure "NAME"   rule R30: like region-start, but the region is the body of the closure bound by `let [mut] NAME = |..| {..};`
+  //@ closure-calls "NAME" => "FN" with "EXTRA, .."   rule R30: the binding is removed and every call NAME(ARGS) becomes FN(ARGS, EXTRA, ..)
   //@ encode-calls "PREFIX" => "FN"   rule R26: `PREFIX::V(args).encode(&mut b)` is written as the call `FN_V(args, &mut b)` of a named emitter
   //@ region-loop-iterable "TEXT" [#k]   rule R23: like region-start, but only the ITERABLE expression of the `for` statement that starts at
                             TEXT becomes (the tail expression of) the synthetic function: a contract on WHICH iterations there are
@@ -27,6 +29,7 @@ Directive grammar (each on its own line, leading whitespace allowed):
                             a `continue` of that loop becomes `return <epilogue>`
   //@ region-call "ANCHOR" [#k] => "CALL"   inside a region: the statement that starts at (the k-th occurrence of) ANCHOR - itself a region
                             verified on its own - is replaced by CALL
+  //@ region-continue EXPR   (R19) in a region of statements of a loop body: a `continue` of that loop becomes `return EXPR`
   //@ region-start "TEXT" / region-end "TEXT" / region-as HEADER / region-prologue TEXT / region-epilogue TEXT
                             rule R16: the block statement of the fn that starts at TEXT becomes the body of a
                             synthetic function with the declared header (nested fn items are cut; select them with
@@ -944,6 +947,59 @@ def rule_r29(text, rules):
         text = text[:st[r].start] + "(match %s { Some(%s) => %s, None => None })" % (RECV, X, E) + text[st[ac].end:]
         rules.append("R29")
 
+def _closure_binding(text, name):
+    """`let [mut] NAME = |PARAMS| { BODY };` -> (stmt_lo, stmt_hi, [param names], body_lo, body_hi)  (offsets into text; body = inside the braces)"""
+    toks, st = _sig_with_index(text)
+    hits = []
+    for i in range(len(st) - 6):
+        if st[i].text != "let" or st[i].kind != "ident" or not _stmt_start(st, i): continue
+        j = i + 1
+        if st[j].text == "mut": j += 1
+        if st[j].text != name or st[j + 1].text != "=" or st[j + 2].text != "|": continue
+        p = j + 3; d = 0; names = []; expect_name = True
+        while not (st[p].text == "|" and d == 0):
+            y = st[p]
+            if y.kind == "punct" and y.text in ("<", "(", "["): d += 1
+            elif y.kind == "punct" and y.text in (">", ")", "]"): d -= 1
+            elif y.kind == "punct" and y.text == "," and d == 0: expect_name = True
+            elif expect_name and y.kind == "ident" and y.text != "mut": names.append(y.text); expect_name = False
+            p += 1
+        if st[p + 1].text != "{": raise ExtractError("R30: closure %s has no block body" % name)
+        bc = match_close(st, p + 1)
+        if st[bc + 1].text != ";": raise ExtractError("R30: closure %s: binding statement does not end after the block" % name)
+        hits.append((st[i].start, st[bc + 1].end, names, st[p + 1].end, st[bc].start))
+    if len(hits) != 1: raise ExtractError("anchor lost: closure binding `let %s = |..| {..};` occurs %d times" % (name, len(hits)))
+    return hits[0]
+
+def rule_r30(text, rules, specs):
+    """let [mut] NAME = |P..| { BODY };  ...  NAME(ARGS)   ->   (binding removed)  ...  FN(ARGS, EXTRA..)
+    for each declared `closure-calls "NAME" => "FN" with "EXTRA, .."`: a closure bound to a local name is a function of its parameters and
+    of the variables it captures; its body is verified as a function of its own (directive region-closure, same text) whose header lists
+    the captured variables after the closure's parameters, and every call passes them explicitly.  A captured variable missing from EXTRA
+    makes the synthetic function fail to compile (undecided, never a wrong proof)."""
+    for (name, fn, extra) in specs:
+        lo, hi, names, blo, bhi = _closure_binding(text, name)
+        body = text[blo:bhi]
+        tb, stb = _sig_with_index(body)
+        for e in [x.strip() for x in extra.split(",") if x.strip()]:
+            e0 = re.sub(r"^[&*\s]*(mut\s+)?", "", e)
+            if not any(y.kind == "ident" and y.text == e0 for y in stb):
+                raise ExtractError("R30: `%s` is passed to %s but does not occur in the closure body" % (e0, fn))
+        text = text[:lo] + text[hi:]
+        while True:
+            toks, st = _sig_with_index(text)
+            hit = None
+            for i in range(len(st) - 1):
+                if st[i].kind == "ident" and st[i].text == name and st[i + 1].text == "(" and (i == 0 or st[i - 1].text not in (".", "::", "fn", "let", "mut")):
+                    hit = i; break
+            if hit is None: break
+            c = match_close(st, hit + 1)
+            args = text[st[hit + 1].end:st[c].start].strip()
+            allargs = ", ".join([a for a in (args.rstrip(","), extra) if a.strip()])
+            text = text[:st[hit].start] + "%s(%s)" % (fn, allargs) + text[st[c].end:]
+        rules.append("R30")
+    return text
+
 def rule_r18(text, rules, specs):
     """for PAT in E { B }  ->  { let mut IT = INTO(E); loop { match NEXT(&mut IT) { None => { break; } Some(PAT) => { B } } } }
     - the definition of `for` in the Rust reference - for iterators that have no Verus specification (wasmparser's section
@@ -1162,6 +1218,17 @@ def extract_item(path, selector, opts, directives, findings_open):
         # R16: a statement inside the function becomes the body of a synthetic function whose header, prologue and
         # epilogue are declared in the unit; nested fn items inside the region are cut (they are items of their own)
         rg = directives["region"]
+        if rg.get("closure"):
+            # R30: the body of the closure bound to a local name; its parameters come first in the declared header, the variables it captures after them
+            lo_, hi_, names_, blo_, bhi_ = _closure_binding(orig, rg["closure"])
+            hdr = rg["as"]; hp = hdr[hdr.index("(") + 1:]
+            pos = -1
+            for nm in names_:
+                m_ = re.search(r"(?<![A-Za-z0-9_])%s\s*:" % re.escape(nm), hp)
+                if not m_ or m_.start() < pos: raise ExtractError("R30: the header declared for closure %s does not list its parameter `%s` in order" % (rg["closure"], nm))
+                pos = m_.start()
+            tb_, stb_ = _sig_with_index(orig[blo_:bhi_])
+            rg = dict(rg); rg["start"] = orig[blo_ + stb_[0].start:bhi_].strip(); rg["_closure_span"] = (blo_, bhi_)
         anchor = rg["start"]
         n = orig.count(anchor)
         kth = rg.get("start_k")
@@ -1182,6 +1249,8 @@ def extract_item(path, selector, opts, directives, findings_open):
                 raise ExtractError("region end is not the first token of a later statement in %s %s" % (path, selector))
             c = _stmt_extent(st_, i1)
         r_lo, r_hi = st_[i0].start, st_[c].end
+        if rg.get("_closure_span"):
+            r_lo, r_hi = rg["_closure_span"]; rules.append("R30")
         body_only = rg.get("body_only")
         if body_only:
             # R19: only the BODY of the loop statement (one iteration); its pattern bindings become parameters of the declared header
@@ -1238,6 +1307,15 @@ def extract_item(path, selector, opts, directives, findings_open):
             for i3, t in enumerate(st3):
                 if t.kind == "ident" and t.text == "continue" and not any(a <= t.start < b for a, b in spans):
                     eds.append((t.start, t.end, "return " + rg.get("epilogue", "")))
+            region = apply_edits(region, eds)
+            if eds: rules.append("R19")
+        if rg.get("continue") and not rg.get("body_only"):
+            # (part of R19) a region of statements of a loop body: a `continue` of THAT loop (not of loops nested in the region) leaves the
+            # region early - `return <declared expression>`
+            t3, st3 = _sig_with_index(region)
+            stw = sig(lex("{" + region + "}"))
+            spans = [(stw[lb].start - 1, stw[match_close(stw, lb)].end - 1) for (kw, lb) in _loop_headers("{" + region + "}", stw, 0)]
+            eds = [(t.start, t.end, "return " + rg["continue"]) for t in st3 if t.kind == "ident" and t.text == "continue" and not any(a <= t.start < b for a, b in spans)]
             region = apply_edits(region, eds)
             if eds: rules.append("R19")
         # a statement nested in the region that is a region of its own (verified separately against the same text) is replaced
@@ -1308,6 +1386,8 @@ def extract_item(path, selector, opts, directives, findings_open):
         if n != 1: raise ExtractError("anchor lost: forward text %r occurs %d times in %s %s" % (a, n, path, selector))
         text = text.replace(a, b)
         pc.substs.append({"from": a, "to": b, "count": 1, "forwarder": "%s :: %s" % (fpath, fsel), "forwarder_body": fbody}); rules.append("R20")
+    if directives.get("closurecalls") and it.kind == "fn":
+        text = rule_r30(text, rules, directives["closurecalls"])
     if it.kind == "fn" or it.kind == "impl" or it.kind == "trait":
         if it.kind == "fn":
             text = rule_r13(text, rules)
@@ -1605,6 +1685,16 @@ def generate(spec_path, open_findings=(), auto_helpers=()):
                         if d2.startswith("region-start "):
                             q, _r = _parse_quoted(d2[len("region-start "):]); directives.setdefault("region", {})["start"] = q
                             if _r.strip().startswith("#"): directives["region"]["start_k"] = int(_r.strip()[1:])
+                        elif d2.startswith("region-closure "):
+                            q, _r = _parse_quoted(d2[len("region-closure "):]); directives.setdefault("region", {})["closure"] = q
+                            directives["region"]["start"] = None
+                        elif d2.startswith("closure-calls "):
+                            a_, rest_ = _parse_quoted(d2[len("closure-calls "):])
+                            if not rest_.strip().startswith("=>"): raise ExtractError("bad closure-calls: %s" % d2)
+                            b_, rest2_ = _parse_quoted(rest_.strip()[2:])
+                            if not rest2_.strip().startswith("with"): raise ExtractError("bad closure-calls (no `with`): %s" % d2)
+                            c_, _r = _parse_quoted(rest2_.strip()[4:])
+                            directives.setdefault("closurecalls", []).append((a_, b_, c_))
                         elif d2.startswith("encode-calls "):
                             a_, rest_ = _parse_quoted(d2[len("encode-calls "):])
                             if not rest_.strip().startswith("=>"): raise ExtractError("bad encode-calls: %s" % d2)
@@ -1629,6 +1719,7 @@ def generate(spec_path, open_findings=(), auto_helpers=()):
                             if not rest_.startswith("=>"): raise ExtractError("bad region-call: %s" % d2)
                             b_, _r = _parse_quoted(rest_[2:])
                             directives.setdefault("region", {}).setdefault("calls", []).append((a_, b_) if k_ is None else (a_, b_, k_))
+                        elif d2.startswith("region-continue "): directives.setdefault("region", {})["continue"] = d2[len("region-continue "):].strip()
                         elif d2.startswith("region-as "): directives.setdefault("region", {})["as"] = d2[len("region-as "):].strip()
                         elif d2.startswith("region-prologue "): directives.setdefault("region", {})["prologue"] = d2[len("region-prologue "):].strip()
                         elif d2.startswith("region-epilogue "): directives.setdefault("region", {})["epilogue"] = d2[len("region-epilogue "):].strip()
